@@ -25,8 +25,24 @@ inductive Instr
 
 /-- parts of the token string expression `prefix + self._instance_id + "_" + str(nr)` -/
 inductive TokPart
-  | pfx | instanceId | lit (s : String) | counter
+  | pfx | instanceId | lit (s : String)
+  | counter                       -- `str(nr)`: the counter in decimal, unbounded
+  | counterOther (how : String)   -- any other rendering of the counter (masked, fixed width, other base …), as written
   deriving DecidableEq, Repr
+
+/-- the string a part contributes for counter value `n`; a rendering the model does not know contributes nothing -/
+def renderPart (pfx instanceId : String) (n : Nat) : TokPart → Option String
+  | .pfx => some pfx
+  | .instanceId => some instanceId
+  | .lit s => some s
+  | .counter => some (toString n)
+  | .counterOther _ => none
+
+/-- the token string for counter value `n` -/
+def render (shape : List TokPart) (pfx instanceId : String) (n : Nat) : Option String :=
+  shape.foldl (fun acc p => match acc, renderPart pfx instanceId n p with
+                            | some a, some b => some (a ++ b)
+                            | _, _ => none) (some "")
 
 /-- where the value of `QMI_Context._instance_id` comes from (classified from the AST of its single assignment) -/
 inductive IdSource
